@@ -6,6 +6,10 @@ package c27_test
 // byte of the connection is decoded independently (x/net/http2 + hpack), so
 // the oracle sees grpc-encoding, grpc-accept-encoding and the compressed-flag
 // byte of every message in both directions.
+// The server handler executes a generated sequence of SetSendCompressor /
+// SetHeader / SendHeader / SetTrailer / SendMsg operations (c27_ops_test.go);
+// unit "hdrorder" is the same check with a generator focused on
+// SetSendCompressor -> explicit SendHeader -> messages.
 // Unit "rawenc" (c27_raw_test.go): scripted raw HTTP/2 client against the real
 // server with arbitrary grpc-encoding / flag / payload combinations.
 //
